@@ -81,6 +81,13 @@ def make_counting_proj(inner):
             self.abort_at = None
             self.cap = 400
 
+        def __getattr__(self, name):
+            # transparent wrapper: anything a Linear layer offers (out_features, weight, bias, ...) is the inner one's
+            try:
+                return super().__getattr__(name)
+            except AttributeError:
+                return getattr(super().__getattr__('inner'), name)
+
         def forward(self, x):
             n = self.calls
             self.calls += 1
@@ -207,6 +214,8 @@ def gen_plan(seed, tier, index):
             b['dup'] = True
         if 'abort_at' not in b and r.random() < 0.12:
             b['forced'] = r.randrange(1 << 30)      # arbitrary target prefix instead of the greedy path
+        if r.random() < 0.05:
+            b['reload'] = r.randrange(1 << 20)      # other weights are loaded into the SAME model object first
         batches.append(b)
         prev = b
     if r.random() < 0.03:
@@ -539,7 +548,18 @@ def execute(plan):
             hist = []
             prev = None
             aborted_before = False
+            held = None          # (scores tensor returned by an earlier batch, copy taken when it was returned)
             for k, b in enumerate(plan['batches']):
+                if b.get('reload') is not None:
+                    # switch checkpoints on the long-lived object (load_state_dict); references follow
+                    m2 = dict(m, seed=int(b['reload']))
+                    pristine = build_net(m2)
+                    _calibrate(pristine, m2, plan)
+                    live.net.load_state_dict({kk.replace('dec_out_proj.', 'dec_out_proj.inner.') if kk.startswith('dec_out_proj.') else kk: vv
+                                              for kk, vv in pristine.state_dict().items()})
+                    ctx['pristine'] = pristine
+                    res.probe('weights_reloaded_into_live_model')
+                    log.add('live', 'reload', b['reload'])
                 x = batch_input(b, m['H'])
                 cap_steps = b['w'] // 4 + 1
                 proj.calls, proj.abort_at, proj.cap = 0, b.get('abort_at'), cap_steps + 3
@@ -575,6 +595,12 @@ def execute(plan):
                     _viol(res, 'liveness', 'no-termination-within-cap', 'decoding did not stop within %d steps for width %d' % (cap_steps + 3, b['w']), k)
                     break
                 proj.abort_at = None
+                if held is not None:
+                    if held[0].shape != held[1].shape or not bool((held[0] == held[1]).all()):
+                        _viol(res, 'cache', 'returned-scores-changed-later', 'the scores returned for an earlier batch changed when a later batch was decoded', k)
+                        break
+                    res.probe('earlier_scores_rechecked')
+                held = (logits, logits.clone())
                 log.add('live', 'batch', [k, b['n'], b['w'], b['cached'], logits.shape[1], kernel.sha(logits.numpy().round(2).tolist())])
                 if aborted_before:
                     res.probe('batch_after_abort')
